@@ -483,6 +483,7 @@ func c17BitmapAccessorsAgree(c *core.Ctx) {
 					return
 				}
 				// one operand is b[q] with q = x / 8 (or x >> 3)
+				narrowed := ""
 				byteOf := func(v ssa.Value) ssa.Value {
 					ld, ok := v.(*ssa.UnOp)
 					if !ok || ld.Op != token.MUL {
@@ -498,6 +499,17 @@ func c17BitmapAccessorsAgree(c *core.Ctx) {
 					}
 					d, isC := core.ConstInt(q.Y)
 					if isC && ((q.Op == token.QUO && d == 8) || (q.Op == token.SHR && d == 3)) {
+						// a conversion that narrows x BEFORE the division drops the high bits of the position
+						for v := q.X; ; {
+							cv, isCv := v.(*ssa.Convert)
+							if !isCv {
+								break
+							}
+							if sizeOfType(cv.Type()) < sizeOfType(cv.X.Type()) {
+								narrowed = core.ExprKey(cv)
+							}
+							v = cv.X
+						}
 						return stripConv(q.X)
 					}
 					return nil
@@ -533,6 +545,9 @@ func c17BitmapAccessorsAgree(c *core.Ctx) {
 				} else if isSh {
 					why = "the mask is " + core.ExprKey(m)
 				}
+				if good && narrowed != "" {
+					good, why = false, "the position is narrowed ("+narrowed+") before it is divided by 8: members beyond the narrow type's range address the bytes of other members"
+				}
 				c.Check(good, "C17/bitmap-accessors-agree", fmt.Sprintf("%s/bit#%d", fname(fn), k), bo.Pos(),
 					"member x is bit (x mod 8) of byte (x div 8)",
 					"a bitmap access addresses byte x/8 but "+why+": writer and readers of the signers' bitmap no longer agree on which bit is member x, so the keys verified are not the members the bitmap names")
@@ -540,4 +555,12 @@ func c17BitmapAccessorsAgree(c *core.Ctx) {
 		}
 	}
 	c.Floor("C17/bitmap-accessors-agree", 3)
+}
+
+func sizeOfType(t types.Type) int {
+	b, ok := t.Underlying().(*types.Basic)
+	if !ok {
+		return 0
+	}
+	return sizeOfBasic(b)
 }
